@@ -536,6 +536,7 @@ func runC09(c *core.Ctx) {
 								want["n"] = 1
 							}
 							h := newC19H(false)
+							h.labels = 1 // the one subscription request made below
 							var res map[string]interface{}
 							var cnt int
 							var perr error
